@@ -33,7 +33,7 @@ WATCHDOG_FACTOR = 5
 def make_case(rng, n_items, n_workers, combo, schedule, gen=False, cms_kind=None):
     keys = key_family(rng, 6, 0, 8)
     items = P.gen_items(rng, n_items, keys)
-    return {"type": "inproc", "items": items, "n_workers": n_workers, "combo": list(combo), "args": P.gen_args(rng, combo, cms_kind),
+    return {"type": "inproc", "items": items, "n_workers": n_workers, "combo": list(combo), "args": P.gen_args(rng, combo, cms_kind, items=items),
             "schedule": {str(k): v for k, v in schedule.items()}, "as_generator": gen, "item_kind": pick(rng, P.ITEM_KINDS),
             "cores": pick(rng, [None, None, 1, 2, 3, 4, 64])}
 
@@ -123,7 +123,7 @@ def gen_cases(ctx):
         if q or j % ns == sh:
             keys = key_family(rng, 8, 0, 8)
             items = P.gen_items(rng, int(rng.integers(nw + 1, 2 * nw + 4)), keys, sleep=True)
-            yield {"type": "spawned", "items": items, "n_workers": nw, "combo": list(combo), "args": P.gen_args(rng, combo, "linear"),
+            yield {"type": "spawned", "items": items, "n_workers": nw, "combo": list(combo), "args": P.gen_args(rng, combo, "linear", items=items),
                    "as_generator": gen, "timeout": 300 if q else 900, "item_kind": ["bytes", "int", "dict", "str", "tuple"][j % 5]}
     if not q and sh == ns - 1:
         # one slow consumer: a single worker sits on its first item for 38 s while the bounded queue (3 * n_workers) is full
@@ -133,6 +133,14 @@ def gen_cases(ctx):
         items[0]["sleep_ms"] = 38000
         yield {"type": "spawned", "items": items, "n_workers": 1, "combo": ["cms", "hll"], "args": P.gen_args(rng, ("cms", "hll"), "linear"),
                "as_generator": False, "timeout": 900, "item_kind": "dict", "slow": True}
+    if not q and sh == ns - 2:
+        # one slow producer: three items that each take 18 s to unpickle - the fill process needs 54 s before it delivers the
+        # first one, and both workers sit idle on an empty queue all that time; nothing may be given up on
+        keys = key_family(rng, 8, 0, 8)
+        items = P.gen_items(rng, 3, keys, sleep=False)
+        yield {"type": "spawned", "items": items, "n_workers": 2, "combo": ["cms", "hh", "hll"], "args": P.gen_args(rng, ("cms", "hh", "hll"), "linear"),
+               "as_generator": False, "timeout": 900, "item_kind": "slow:18", "slow_producer": True}
+
     def random_runs(n_rand, j0=0):
         # all seven combinations, worker counts 1..9, random schedules, list and generator
         for j in range(j0, j0 + n_rand):
@@ -213,6 +221,7 @@ def floors(mon, ctx):
     mon.floor("sketch combinations", len(mon.classes["combo"]), 7)
     mon.floor("worker counts", len(mon.classes["n_workers"]), 9)
     mon.floor("core counts reported to the library (host, 1, 2, 3, 4, 64)", len(mon.classes["reported_cores"]), 5)
+    mon.floor("parallel_add results holding a register of the maximum rank 64-p+1", mon.counters["hll_results_holding_a_maximum_rank_register"], 20)
     mon.floor("runs with 10..40 workers", len([x for x in mon.classes["n_workers"] if x >= 10]), 5)
     mon.floor("runs with an odd worker count", mon.counters["runs_with_odd_worker_count"], 10)
     mon.floor("runs with generator items", mon.counters["runs_with_generator_items"], 10)
